@@ -415,6 +415,8 @@ def judge(ctx, spec, case):
                                 problems.append(("ladder-reading-differs-from-filled-in-table",
                                                  {"object": idx, "attr": attr, "ladder": repr(getattr(a, attr)),
                                                   "filled": repr(getattr(b, attr))}))
+    if not problems:
+        other_routes(ctx, spec, ws, obj_cls, rules, objs, problems)
     for mech, detail in problems[:5]:
         ctx.violation(mech, detail, case)
     if problems:
@@ -425,6 +427,70 @@ def judge(ctx, spec, case):
         ctx.count("sheets_with_trailing_content")
     if (spec['ladder'] and taken) or (not spec['ladder'] and spec['rcols'] and spec['extras'] and spec['trailing']):
         ctx.nontrivial(sig_of([spec['grid'], spec['range_kind'], spec['stop_on'], spec['ladder']]))
+
+
+def same_objects(a, b):
+    if (a is None) != (b is None):
+        return False
+    if a is None:
+        return True
+    for attr in Obj._ATTRS:
+        if getattr(a, attr) != getattr(b, attr) or a.get_attr_origin(attr) != b.get_attr_origin(attr):
+            return False
+    return a.logic_id == b.logic_id
+
+
+def other_routes(ctx, spec, ws, obj_cls, rules, objs, problems):
+    """the other public ways to read the same sheet must give the objects read_table gave (those were
+    just compared with the reference binding)"""
+    route = ("iter_table", "reader", "mixin", "map", "mixin_map", "none", "none")[ctx.counters.get("objects_checked", 0) % 7]
+    kw = dict(stop_on=spec['stop_on'], ladder_format=spec['ladder'])
+    defaults = spec['stop_on'] == "blank all" and not spec['ladder']
+    try:
+        if route == "iter_table":
+            got = list(X.iter_table(ws, obj_cls, rules, **kw))
+        elif route == "reader":
+            reader = X.XlsTableReader(X.XlsObjReadRules(obj_cls, rules))
+            got = [x for (x,) in reader.iter_table(ws, **kw)]
+        elif route == "mixin" and defaults:
+            cls = type("ObjT", (X.TableReader, obj_cls), {"ATTR_RULES": rules})
+            got = cls.read_list(ws) if len(objs) % 2 else list(cls.iter_xls(ws))
+        elif route in ("map", "mixin_map") and spec.get('n_id', 1) and (route == "map" or defaults):
+            want = {}
+            clash = False
+            for o in objs:
+                if o is None:
+                    continue
+                if o.logic_id in want and any(getattr(o, a) != getattr(want[o.logic_id], a) for a in Obj._ATTRS):
+                    clash = True
+                    break
+                want[o.logic_id] = o
+            try:
+                if route == "map":
+                    got_map = X.read_table_make_map(ws, obj_cls, rules, **kw)
+                else:
+                    cls = type("ObjT", (X.TableReader, obj_cls), {"ATTR_RULES": rules})
+                    got_map = cls.read_map(ws)
+            except ValueError:
+                if not clash:
+                    problems.append(("map-of-objects-raises-without-conflicting-rows", {"route": route}))
+                ctx.count("maps_of_objects_checked")
+                return
+            ctx.count("maps_of_objects_checked")
+            if clash:
+                problems.append(("conflicting-rows-with-one-id-accepted", {"route": route}))
+            elif list(got_map) != list(want) or not all(same_objects(got_map[k], want[k]) for k in want):
+                problems.append(("map-of-objects-differs-from-list", {"route": route, "got": repr(list(got_map))[:200],
+                                                                      "expected": repr(list(want))[:200]}))
+            return
+        else:
+            return
+    except Exception as err:
+        problems.append(("reading-raises", {"route": route, "type": type(err).__name__, "msg": str(err)[:200]}))
+        return
+    ctx.count("other_entry_points_compared")
+    if len(got) != len(objs) or not all(same_objects(a, b) for a, b in zip(got, objs)):
+        problems.append(("entry-points-disagree", {"route": route, "got": len(got), "read_table": len(objs)}))
 
 
 def run_shard(ctx):
